@@ -1002,7 +1002,9 @@ class Scores:
                     # https://en.wikipedia.org/wiki/Kernel_density_estimation
                     iqr = np.quantile(x, 0.75) - np.quantile(x, 0.25)
                     h = 0.9 * min(x.std(), iqr / 1.34) * math.pow(len(x), -0.2)
-                    return h
+                    # Rounding and signed zeros can give -0.0 (or a tiny negative
+                    # number), which is not a valid scale for the normal distribution.
+                    return abs(h)
 
                 h_pos = _estimate_bandwidth(pos)
                 h_neg = _estimate_bandwidth(neg)
